@@ -174,15 +174,17 @@ ADF_GEN = ("generated ADFs (1-6 statements quick, up to 7 thorough; 60% random f
            "parsed by the real parser from generated text; ")
 
 PROPS["C04"] = dict(
-    level_text="Machine-checked proof (Lean 4) for the generic store-threading search machine that has exactly the shape of two_val_model_counts_logic as repaired by D1: for EVERY selection "
-               "strategy, if the cube step, the flip step and the leaf satisfy the soundness laws CSound, the search is complete, sound, emits pairwise disjoint outputs, only extends the store "
-               "and needs n+1 levels (C04.search_exact, spec_meaning); the cube laws are theorems about the model of Bdd::interpretations (cube_laws) and the final filter is the stability "
-               "test of C03 (final_filter_is_stability). PARTIAL: discharging CSound for the concrete steps (will_be, check_consistency, one-step propagation) is not done; the full statement "
-               "is kept as count_search_exact_statement. The concrete executable model countAll is tied to the code handle for handle (emitted vectors in order, node tables) and the "
-               "implementation's answers are compared as multisets with the brute-force stable models of the specification; the pre-study defect D1 (models lost) was repaired in /repo.",
-    level_note="Trusted: Lean kernel + standard axioms; the instance laws of the generic theorem are not yet proved for the concrete model (partial); correspondence differential (n <= 7); "
-               "countLogic in the driver is a 'partial def' (termination not proved in Lean; the generic machine is fuel-based and proved).",
-    technique="Lean 4 proof (generic branching-search machine with soundness laws; cube theorems) + handle-exact correspondence + brute-force specification oracle",
+    level_text="Machine-checked proof (Lean 4) for the CONCRETE executable model of two_val_model_counts_logic as repaired by D1 (the function the driver runs handle for handle against the code; "
+               "fuel-based, an instance of the generic store-threading search machine GK.search): for every well-formed store and valid conditions and BOTH heuristics, countAll returns a Nodup "
+               "list whose decided parts are exactly the stable models of the conditions' functions (C04.count_search_exact; end to end from written formulas: count_search_end_to_end). The proof "
+               "discharges all step laws of the generic machine for the concrete steps (concrete_steps_lawful: cube step with one propagation step and check_consistency, the 'conclude the other "
+               "value' step, will_be bookkeeping, leaf) under the invariant established by the grounded start (start_invariant, count_logic_spec), uses C13's cube theorems (cube_laws) and C03's "
+               "characterisation of the final stability filter. The generic theorem holds for every selection strategy (search_exact). The unrepaired variant loses the only stable model of a "
+               "four-statement witness (replayed by #guard). Tie to the code: emitted vectors in order and node tables on native, hybrid and pre-grounded objects vs the model; multisets vs the "
+               "brute-force specification.",
+    level_note="Trusted: Lean kernel + standard axioms; the model's tie to adf.rs is differential (n <= 7); cube variables beyond the number of statements are out of scope (the code would panic); "
+               "the D1 replay is a #guard evaluation, not a kernel-checked lemma (Std.HashMap does not reduce in the kernel).",
+    technique="Lean 4 proof (generic branching-search machine instantiated with the concrete steps; invariants WF + model-relative residuals + will_be) + handle-exact correspondence + brute-force specification oracle",
     jobs=[Job("adf", 1500, 60000, size=6, size_thorough=7, extra=("count",),
               relevant=heads("build", "adopt", "stmca", "stmcb", "adump", "wfcheck"), nontrivial=nt_adf)],
     rule=ADF_GEN + "stable_count_optimisation_heu_a/b on native, hybrid and pre-grounded hybrid objects in both call orders; emitted vectors (in order) and node tables compared with the Lean model, "
